@@ -338,6 +338,188 @@ theorem C11_union_assoc (a b c : Rect) (ha : a.WF) (hb : b.WF) (hc : c.WF) (hab 
   simp only [Res.rect.injEq, Rect.mk.injEq, true_and]
   omega
 
+/-! ### mixed sheet qualification of the operands (none + sheet, sheet + none, same sheet, different sheets)
+
+  "both commutative, associative and idempotent" has no exclusion for operands that carry the sheet differently: pycel
+  merges the sheet (`sheet=self.sheet or other.sheet`) and answers #VALUE! for two different named sheets. -/
+
+/-- two sheet qualifications that cannot be combined: both named, and different -/
+abbrev Clash (s t : Str) : Prop := s ≠ [] ∧ t ≠ [] ∧ s ≠ t
+
+/-- the sheet-merge rule: a sheet-less operand takes the other operand's sheet -/
+def mergeSheet (s t : Str) : Str := if s ≠ [] then s else t
+
+def Rect.noSheet (a : Rect) : Rect := { a with sheet := [] }
+def Res.setSheet (s : Str) : Res → Res
+  | .rect r => .rect { r with sheet := s }
+  | x => x
+
+theorem setSheet_match (s : Str) (x y : Option (Nat × Nat)) :
+    (match x, y with
+      | some (c1, c2), some (r1, r2) => Res.rect ⟨s, c1, r1, c2, r2⟩
+      | _, _ => Res.null) =
+    Res.setSheet s (match x, y with
+      | some (c1, c2), some (r1, r2) => Res.rect ⟨[], c1, r1, c2, r2⟩
+      | _, _ => Res.null) := by
+  rcases x with _ | ⟨c1, c2⟩ <;> rcases y with _ | ⟨r1, r2⟩ <;> rfl
+
+/-- `&` / `**` = the sheet rule on top of the sheet-less geometry -/
+theorem combine_sheet (i : Bool) (a b : Rect) (ha wa hb wb : Int) :
+    combineCore i a b ha wa hb wb =
+      if Clash a.sheet b.sheet then .value
+      else (combineCore i a.noSheet b.noSheet ha wa hb wb).setSheet (mergeSheet a.sheet b.sheet) := by
+  by_cases h : Clash a.sheet b.sheet
+  · rw [if_pos h]; unfold combineCore; rw [if_pos h]
+  · rw [if_neg h]; unfold combineCore; rw [if_neg h]
+    simp only [Rect.noSheet, ne_eq, not_true_eq_false, false_and, ↓reduceIte, mergeSheet]
+    exact setSheet_match _ _ _
+
+theorem inter_sheet (a b : Rect) :
+    a.inter b = if Clash a.sheet b.sheet then .value
+      else (a.noSheet.inter b.noSheet).setSheet (mergeSheet a.sheet b.sheet) := combine_sheet true a b _ _ _ _
+theorem union_sheet (a b : Rect) :
+    a.union b = if Clash a.sheet b.sheet then .value
+      else (a.noSheet.union b.noSheet).setSheet (mergeSheet a.sheet b.sheet) := combine_sheet false a b _ _ _ _
+
+theorem clash_comm (s t : Str) : Clash s t ↔ Clash t s := by
+  constructor <;> (rintro ⟨h1, h2, h3⟩; exact ⟨h2, h1, fun h => h3 h.symm⟩)
+
+theorem merge_comm (s t : Str) (h : ¬ Clash s t) : mergeSheet s t = mergeSheet t s := by
+  unfold mergeSheet
+  by_cases hs : s = [] <;> by_cases ht : t = [] <;> simp_all
+
+theorem noSheet_wf (a : Rect) (h : a.WF) : a.noSheet.WF := h
+
+theorem merge_assoc (s t u : Str) : mergeSheet (mergeSheet s t) u = mergeSheet s (mergeSheet t u) := by
+  unfold mergeSheet
+  by_cases hs : s = [] <;> by_cases ht : t = [] <;> simp_all
+
+/-- pairwise combinable sheets stay combinable after merging -/
+theorem clash_merge_left (s t u : Str) (h1 : ¬ Clash s t) (h2 : ¬ Clash t u) (h3 : ¬ Clash s u) :
+    ¬ Clash (mergeSheet s t) u ∧ ¬ Clash s (mergeSheet t u) := by
+  unfold mergeSheet
+  by_cases hs : s = [] <;> by_cases ht : t = [] <;> by_cases hu : u = [] <;> simp_all
+
+theorem clash_value (i : Bool) (a b : Rect) (h : Clash a.sheet b.sheet) :
+    a.inter b = .value ∧ a.union b = .value := by
+  rw [inter_sheet, union_sheet, if_pos h, if_pos h]; exact ⟨rfl, rfl⟩
+
+theorem setSheet_andThen (s : Str) (x : Res) (f g : Rect → Res)
+    (h : ∀ r, x = .rect r → f { r with sheet := s } = g r) :
+    (x.setSheet s).andThen f = x.andThen g := by
+  cases x with
+  | rect r => exact h r rfl
+  | null => rfl
+  | value => rfl
+
+theorem andThen_setSheet_out (s : Str) (x : Res) (f : Rect → Res) :
+    x.andThen (fun r => (f r).setSheet s) = (x.andThen f).setSheet s := by
+  cases x <;> rfl
+
+/-- sheet-less operands give sheet-less results -/
+theorem noSheet_result (i : Bool) (a b : Rect) (ha wa hb wb : Int) (r : Rect)
+    (h : combineCore i a.noSheet b.noSheet ha wa hb wb = .rect r) : r.sheet = [] := by
+  unfold combineCore at h
+  simp only [Rect.noSheet, ne_eq, not_true_eq_false, false_and, ↓reduceIte] at h
+  split at h
+  · injection h with h; subst h; rfl
+  · cases h
+
+/-- commutativity of `&` and `**` for EVERY sheet qualification of the operands (none + sheet, sheet + none, same
+    sheet, different sheets: both orders give #VALUE!) -/
+theorem C11_comm_sheets (a b : Rect) (ha : a.WF) (hb : b.WF) : a.inter b = b.inter a ∧ a.union b = b.union a := by
+  rw [inter_sheet a b, inter_sheet b a, union_sheet a b, union_sheet b a]
+  by_cases h : Clash a.sheet b.sheet
+  · rw [if_pos h, if_pos h, if_pos ((clash_comm _ _).mp h), if_pos ((clash_comm _ _).mp h)]
+    exact ⟨rfl, rfl⟩
+  · have h' : ¬ Clash b.sheet a.sheet := fun x => h ((clash_comm _ _).mp x)
+    rw [if_neg h, if_neg h, if_neg h', if_neg h', merge_comm _ _ h,
+      C11_inter_comm a.noSheet b.noSheet ha hb rfl, C11_union_comm a.noSheet b.noSheet ha hb rfl]
+    exact ⟨rfl, rfl⟩
+
+/-- the sheet-merge rule itself: a sheet-less operand takes the other's sheet, two different named sheets give
+    #VALUE!, and the geometry never depends on the sheets -/
+theorem C11_sheet_rule (a b : Rect) :
+    (Clash a.sheet b.sheet → a.inter b = .value ∧ a.union b = .value) ∧
+    (¬ Clash a.sheet b.sheet →
+      a.inter b = (a.noSheet.inter b.noSheet).setSheet (mergeSheet a.sheet b.sheet) ∧
+      a.union b = (a.noSheet.union b.noSheet).setSheet (mergeSheet a.sheet b.sheet)) := by
+  refine ⟨fun h => clash_value true a b h, fun h => ?_⟩
+  rw [inter_sheet, union_sheet, if_neg h, if_neg h]; exact ⟨rfl, rfl⟩
+
+/-- associativity of `&` and `**` for operands whose sheet qualifications can be combined (any mix of sheet-less and
+    one named sheet) -/
+theorem C11_assoc_sheets (a b c : Rect) (ha : a.WF) (hb : b.WF) (hc : c.WF)
+    (hab : ¬ Clash a.sheet b.sheet) (hbc : ¬ Clash b.sheet c.sheet) (hac : ¬ Clash a.sheet c.sheet) :
+    (a.inter b).andThen (fun r => r.inter c) = (b.inter c).andThen (fun r => a.inter r) ∧
+    (a.union b).andThen (fun r => r.union c) = (b.union c).andThen (fun r => a.union r) := by
+  obtain ⟨k1, k2⟩ := clash_merge_left _ _ _ hab hbc hac
+  have key : ∀ (i : Bool) (op : Rect → Rect → Res)
+      (hop : ∀ x y, op x y = combineCore i x y x.height x.width y.height y.width)
+      (hassoc : (op a.noSheet b.noSheet).andThen (fun r => op r c.noSheet) =
+        (op b.noSheet c.noSheet).andThen (fun r => op a.noSheet r)),
+      (op a b).andThen (fun r => op r c) = (op b c).andThen (fun r => op a r) := by
+    intro i op hop hassoc
+    have e1 : op a b = (op a.noSheet b.noSheet).setSheet (mergeSheet a.sheet b.sheet) := by
+      rw [hop a b, hop a.noSheet b.noSheet, combine_sheet, if_neg hab]; rfl
+    have e2 : op b c = (op b.noSheet c.noSheet).setSheet (mergeSheet b.sheet c.sheet) := by
+      rw [hop b c, hop b.noSheet c.noSheet, combine_sheet, if_neg hbc]; rfl
+    rw [e1, e2]
+    rw [setSheet_andThen _ _ _ (fun r => (op r c.noSheet).setSheet (mergeSheet (mergeSheet a.sheet b.sheet) c.sheet)),
+      setSheet_andThen _ _ _ (fun r => (op a.noSheet r).setSheet (mergeSheet a.sheet (mergeSheet b.sheet c.sheet))),
+      andThen_setSheet_out, andThen_setSheet_out, hassoc, merge_assoc]
+    · intro r hr
+      have hs : r.sheet = [] := by
+        rw [hop b.noSheet c.noSheet] at hr; exact noSheet_result i b c _ _ _ _ r hr
+      rw [hop, hop a.noSheet r, combine_sheet, if_neg k2]
+      obtain ⟨s, c1, r1, c2, r2⟩ := r
+      simp only at hs; subst hs; rfl
+    · intro r hr
+      have hs : r.sheet = [] := by
+        rw [hop a.noSheet b.noSheet] at hr; exact noSheet_result i a b _ _ _ _ r hr
+      rw [hop, hop r c.noSheet, combine_sheet, if_neg k1]
+      obtain ⟨s, c1, r1, c2, r2⟩ := r
+      simp only at hs; subst hs; rfl
+  exact ⟨key true Rect.inter (fun _ _ => rfl) (C11_inter_assoc a.noSheet b.noSheet c.noSheet ha hb hc rfl rfl),
+    key false Rect.union (fun _ _ => rfl) (C11_union_assoc a.noSheet b.noSheet c.noSheet ha hb hc rfl rfl)⟩
+
+
+theorem clash_merge_any (s t u : Str) (h : Clash s t ∨ Clash t u ∨ Clash s u) :
+    (¬ Clash s t → Clash (mergeSheet s t) u) ∧ (¬ Clash t u → Clash s (mergeSheet t u)) := by
+  unfold mergeSheet
+  by_cases hs : s = [] <;> by_cases ht : t = [] <;> by_cases hu : u = [] <;> simp_all <;> grind
+
+/-- `**` is associative for EVERY sheet qualification: with two different named sheets among the operands both
+    groupings give #VALUE! -/
+theorem C11_union_assoc_all_sheets (a b c : Rect) (ha : a.WF) (hb : b.WF) (hc : c.WF) :
+    (a.union b).andThen (fun r => r.union c) = (b.union c).andThen (fun r => a.union r) := by
+  by_cases h : Clash a.sheet b.sheet ∨ Clash b.sheet c.sheet ∨ Clash a.sheet c.sheet
+  · obtain ⟨k1, k2⟩ := clash_merge_any _ _ _ h
+    have lhs : (a.union b).andThen (fun r => r.union c) = .value := by
+      by_cases hab : Clash a.sheet b.sheet
+      · rw [(clash_value true a b hab).2]; rfl
+      · rw [union_sheet a b, if_neg hab, union_eq a.noSheet b.noSheet ha hb rfl]
+        simp only [Res.setSheet, Res.andThen]
+        exact (clash_value true _ c (k1 hab)).2
+    have rhs : (b.union c).andThen (fun r => a.union r) = .value := by
+      by_cases hbc : Clash b.sheet c.sheet
+      · rw [(clash_value true b c hbc).2]; rfl
+      · rw [union_sheet b c, if_neg hbc, union_eq b.noSheet c.noSheet hb hc rfl]
+        simp only [Res.setSheet, Res.andThen]
+        exact (clash_value true a _ (k2 hbc)).2
+    rw [lhs, rhs]
+  · have h1 : ¬ Clash a.sheet b.sheet := fun x => h (Or.inl x)
+    have h2 : ¬ Clash b.sheet c.sheet := fun x => h (Or.inr (Or.inl x))
+    have h3 : ¬ Clash a.sheet c.sheet := fun x => h (Or.inr (Or.inr x))
+    exact (C11_assoc_sheets a b c ha hb hc h1 h2 h3).2
+
+/-- `&` with two different named sheets among three operands: an error either way, but not the same one
+    (an empty intermediate is #NULL! before the sheets are compared) -/
+theorem C11_inter_assoc_clash_witness :
+    ((⟨['S'], 1, 1, 1, 1⟩ : Rect).inter ⟨[], 2, 2, 2, 2⟩).andThen (fun r => r.inter ⟨['T'], 2, 2, 2, 2⟩) = .null ∧
+    ((⟨[], 2, 2, 2, 2⟩ : Rect).inter ⟨['T'], 2, 2, 2, 2⟩).andThen (fun r => (⟨['S'], 1, 1, 1, 1⟩ : Rect).inter r)
+      = .value := by decide
+
 /-! ### whole rows and columns as operands ("exactly the common cells", an unbounded side read as 1..MAX)
 
   `A:C` is stored with rows 0, `1:3` with columns 0.  The pinned code added the size MAX to the corner 0, so every
